@@ -13,6 +13,7 @@ Judge(L) ==
   ELSE IF L.nkeys < 1 THEN "no_order_keys"
   ELSE IF L.resid_milli > 1000 THEN "not_the_documented_combination"
   ELSE IF L.resid2_milli > 1000 THEN "not_the_documented_combination_at_the_second_inelasticity"
+  ELSE IF L.pred_milli > 1000 THEN "prediction_is_not_the_documented_combination_of_predictions"
   ELSE IF ~L.kinematics_ok THEN "result_kinematics_differ_from_request"
   ELSE "ok"
 VARIABLE l
